@@ -21,10 +21,10 @@ struct M
 } m;
 std::set<unsigned long long> *fresh_values;
 
-enum { P_POLL_TRUE = 0, P_POLL_FALSE, P_COALESCED, P_LATE_OBSERVER, P_OBSERVABLE_FIRST, P_OBSERVER_FIRST, P_POLL_ORPHAN, P_CONCURRENT_STAMPS };
+enum { P_POLL_TRUE = 0, P_POLL_FALSE, P_COALESCED, P_LATE_OBSERVER, P_OBSERVABLE_FIRST, P_OBSERVER_FIRST, P_POLL_ORPHAN, P_CONCURRENT_STAMPS, P_BULK };
 const char *probe_names[] = {"poll_returned_true", "poll_returned_false", "repeated_notifications_between_polls", "observer_created_after_notification",
                              "observable_destroyed_before_its_observer", "observer_destroyed_before_its_observable", "poll_after_observable_destroyed",
-                             "stamps_taken_by_two_or_more_threads", nullptr};
+                             "stamps_taken_by_two_or_more_threads", "observable_with_10_to_40_more_observers", nullptr};
 const char *no_faults[] = {nullptr};
 int notify_count[C19_MAXOBSERVABLES];
 int stamp_threads_seen;
@@ -43,13 +43,21 @@ void do_plan(int tier)
 {
   plan.nobs_ops = (int)sim_plan(tier ? 25 : 19);
   sim_set_tso(sim_plan(4) == 0);
+  plan.bulk_n = 0;
+  if (plan.nobs_ops >= 4 && sim_plan(6) == 0) {
+    // an observable with many observers (registries grow, reallocate, change representation)
+    plan.bulk_n = 9 + (int)sim_plan(32);
+    plan.bulk_at = 2 + (int)sim_plan((uint32_t)plan.nobs_ops - 2);
+    plan.bulk_obs = (int)sim_plan(2);
+    sim_probe(P_BULK);
+  }
   for (int i = 0; i < plan.nobs_ops; i++) {
     static const uint8_t kinds[] = {C19_NEW_OBSERVABLE, C19_NEW_OBSERVER, C19_NEW_OBSERVER, C19_NOTIFY, C19_NOTIFY, C19_POLL, C19_POLL, C19_POLL,
                                     C19_DEL_OBSERVER, C19_DEL_OBSERVABLE};
     C19Op &op = plan.obs_ops[i];
     op.kind = kinds[sim_plan(sizeof kinds)];
     bool observer_op = op.kind == C19_NEW_OBSERVER || op.kind == C19_POLL || op.kind == C19_DEL_OBSERVER;
-    op.a = (uint8_t)sim_plan(observer_op ? C19_MAXOBSERVERS : C19_MAXOBSERVABLES);
+    op.a = (uint8_t)sim_plan(observer_op ? C19_REGULAR_OBSERVERS + (uint32_t)plan.bulk_n : C19_MAXOBSERVABLES);
     op.b = (uint8_t)sim_plan(C19_MAXOBSERVABLES);
   }
   // make sure there is something to observe early on
